@@ -105,6 +105,7 @@ impl C07 {
             ("assign", self.small.len() as u64 * 6),
             ("postfix-vs-ops", 13 * 8),
             ("else-if-chains", 4 * 6),
+            ("else-if-chains-as-operands", 4 * 6 * 13 * 4),
             ("random-deep-expr", t.pick(20_000, 1_000_000)),
             ("random-programs", t.pick(40_000, 2_000_000)),
         ])
@@ -163,7 +164,8 @@ impl C07 {
                 };
                 vec![Stmt::Expr(e)]
             }
-            "else-if-chains" => {
+            "else-if-chains" | "else-if-chains-as-operands" => {
+                let (ctx_k, i) = if name == "else-if-chains" { (None, i) } else { (Some(i / 24), i % 24) };
                 let len = (i / 6 + 1) as usize;
                 let variant = i % 6;
                 // als c0 {..} anders als c1 {..} … [anders {..}]
@@ -181,7 +183,22 @@ impl C07 {
                     Some(Stmt::Expr(e)) => e,
                     _ => unreachable!(),
                 };
-                vec![Stmt::Let("r".into(), chain.clone()), Stmt::Expr(chain), Stmt::Expr(Expr::Array(vec![ident("r")]))]
+                match ctx_k {
+                    None => vec![Stmt::Let("r".into(), chain.clone()), Stmt::Expr(chain), Stmt::Expr(Expr::Array(vec![ident("r")]))],
+                    // the chain, without parentheses, as the left / right / both operands of every binary operator, at
+                    // the start of a statement and inside a declaration: an operator after the last block of the chain
+                    // applies to the whole chain, exactly as after a plain `als … anders { … }`
+                    Some(k) => {
+                        let op = BINARY_OPS[(k % 13) as usize];
+                        let e = match k / 13 {
+                            0 => infix(chain.clone(), op, Expr::Int(1)),
+                            1 => infix(ident("a"), op, chain.clone()),
+                            2 => infix(infix(chain.clone(), op, ident("b")), Op::Add, chain.clone()),
+                            _ => infix(Expr::While { cond: Box::new(ident("c")), body: vec![Stmt::Expr(chain.clone())] }, op, chain.clone()),
+                        };
+                        vec![Stmt::Expr(e.clone()), Stmt::Let("r".into(), e.clone()), Stmt::Expr(Expr::Array(vec![e, ident("r")]))]
+                    }
+                }
             }
             "random-deep-expr" => {
                 // 4–7 operators, random shape
@@ -313,7 +330,7 @@ impl Check for C07 {
             rule: "case = one syntax tree printed with minimal parentheses (documented table, left-associative) and again under random layouts (all 11 whitespace code points, comments, redundant parentheses, optional ; and , present or absent, += sugar or long form, `anders als` or `anders { als }`); the real parser's tree must equal the tree printed. distinct = distinct trees; all are non-trivial (>= 1 operator or statement)".to_string(),
             exhaustive: Some(true),
             extra: json!({
-                "exhaustive_parts": ["all 11 336 binary-operator trees with <= 3 operator nodes over 13 operators (every ordered parent/child pair in both child positions)", "assignment and the five op-assignments over every tree with <= 2 operators", "calls / indexing / prefix operators against every binary operator", "else-if chains of length 1-4"],
+                "exhaustive_parts": ["all 11 336 binary-operator trees with <= 3 operator nodes over 13 operators (every ordered parent/child pair in both child positions)", "assignment and the five op-assignments over every tree with <= 2 operators", "calls / indexing / prefix operators against every binary operator", "else-if chains of length 1-4, alone and unparenthesised as left / right operand of every binary operator"],
                 "operator_pair_cells_hit": pairs,
                 "families": fams.fams.iter().map(|f| json!({"name": f.0, "cases": f.1})).collect::<Vec<_>>(),
             }),
